@@ -233,6 +233,7 @@ func built(c *mon.Ctx, r *gen.Rand, e *ref.EBP) {
 	// the setters are independent of each other: they are called in a random order, and the time is given
 	// before or after the flags
 	timeFirst := r.Bool()
+	idsWithoutFlag := false // grouping ids were put into the object without the flag: StreamSyncSignal() of the built object is not compared
 	t := ref.NTPInstant(e.Sec, e.Frac)
 	set := func(b ebp.EncoderBoundaryPoint) {
 		f := e.Flags
@@ -293,6 +294,12 @@ func built(c *mon.Ctx, r *gen.Rand, e *ref.EBP) {
 					b.Grouping = append(b.Grouping, id)
 				}
 			}
+		} else if len(e.Reserved) < 100 && r.Chance(4) {
+			// ids in the (public) field although the grouping flag is not requested: they are not announced, so they
+			// are not part of the encoding; the length byte still counts exactly the bytes that follow
+			b.Grouping = []byte{0x1c, 0x85, 0x01}[:1+r.Intn(3)]
+			idsWithoutFlag = true
+			c.Count("built.grouping_ids_without_flag")
 		}
 		if !timeFirst {
 			b.SetEBPTime(t)
@@ -310,6 +317,10 @@ func built(c *mon.Ctx, r *gen.Rand, e *ref.EBP) {
 			} else {
 				b.Grouping = append(b.Grouping, e.Groups[0])
 			}
+		} else if len(e.Reserved) < 100 && r.Chance(4) {
+			b.Grouping = []byte{0x1d}
+			idsWithoutFlag = true
+			c.Count("built.grouping_ids_without_flag")
 		}
 		if !timeFirst {
 			b.SetEBPTime(t)
@@ -338,7 +349,7 @@ func built(c *mon.Ctx, r *gen.Rand, e *ref.EBP) {
 	}
 	// getters(built) == getters(decode(encode(built)))
 	same := x.FragmentFlag() == y.FragmentFlag() && x.SegmentFlag() == y.SegmentFlag() && x.SapFlag() == y.SapFlag() && x.GroupingFlag() == y.GroupingFlag() &&
-		x.TimeFlag() == y.TimeFlag() && x.ExtensionFlag() == y.ExtensionFlag() && x.EBPType() == y.EBPType() && x.IsEmpty() == y.IsEmpty() && x.StreamSyncSignal() == y.StreamSyncSignal()
+		x.TimeFlag() == y.TimeFlag() && x.ExtensionFlag() == y.ExtensionFlag() && x.EBPType() == y.EBPType() && x.IsEmpty() == y.IsEmpty() && (idsWithoutFlag || x.StreamSyncSignal() == y.StreamSyncSignal())
 	if x.SapFlag() {
 		same = same && x.Sap() == y.Sap()
 	}
